@@ -27,9 +27,10 @@ let run_cwlog (toks : string list) : string =
           (xml := Some (bytes_of_hex (Stdlib.String.sub t 2 (Stdlib.String.length t - 2))); false)
         else true) rest in
     let callops = ref [] in
+    let finlog = ref None in
     let trailer (d : Device.dev) finops logmark =
       let o = function Some i -> string_of_int i | None -> "-" in
-      dev_summary d ^ " finops=" ^ o finops ^ " logmark=" ^ o logmark
+      dev_summary d ^ " finops=" ^ o finops ^ " logmark=" ^ o logmark ^ " finlog=" ^ o !finlog
       ^ " callops=" ^ Stdlib.String.concat "," (Stdlib.List.rev_map string_of_int !callops)
       ^ (if has "log" then
            " log=" ^ Stdlib.String.concat "," (Stdlib.List.rev_map (fun (p, bs) -> decimal_of_n p ^ ":" ^ hex_of_bytes bs) d.Device.d_log)
@@ -53,9 +54,24 @@ let run_cwlog (toks : string list) : string =
        let finops = ref None and logmark = ref None in
        if r0 = Prelude.Ok () then begin
          let stopped = ref false in
+         (* the top-level finalize is terminal (WriterApi.wapi_step: ws_finalized): afterwards add_blob,
+            add_pointcloud, add_image and finalize are refused with Invalid and issue no operation *)
+         let finalized = ref false in
+         let loglen () = Stdlib.List.length (!st).PagedWriter.pw_dev.Device.d_log in
+         let top_finalize () =
+           if !logmark = None then logmark := Some (loglen ());
+           if !finalized then "eInvalid" else
+             match !xml with
+             | None -> failwith "CWLOG: finalize without X:"
+             | Some x ->
+               let r = run (FileBin.writer_finalize x) in
+               if r = Prelude.Ok () then begin finalized := true; if !finlog = None then finlog := Some (loglen ()) end;
+               res_tok r (fun () -> "o") in
          Stdlib.List.iter (fun t ->
              if not !stopped then begin
                let o = match Stdlib.String.split_on_char ':' t with
+                 | ["FIN"] | ["FINX"] -> top_finalize ()
+                 | _ when !finalized -> "eInvalid"
                  | ["B"; h] -> res_tok (blob (bytes_of_hex h)) show_blob
                  | [("I" | "ID"); _; h; m] ->
                    (* one library call writes the data blob and then the mask blob *)
@@ -82,11 +98,11 @@ let run_cwlog (toks : string list) : string =
                if is_failure o && has "stop" then stopped := true
              end) items;
          (match !xml with
-          | Some x when not (has "nofin") && not !stopped ->
-            logmark := Some (Stdlib.List.length (!st).PagedWriter.pw_dev.Device.d_log);
-            let r = run (FileBin.writer_finalize x) in
+          | Some _ when not (has "nofin") && not (has "xfin") && not !stopped ->
+            logmark := Some (loglen ());
+            let o = top_finalize () in
             mark ();
-            outs := res_tok r (fun () -> "o") :: !outs
+            outs := o :: !outs
           | _ -> ());
          finops := Some (int_of_n (!st).PagedWriter.pw_dev.Device.d_ops)
        end;
